@@ -11,9 +11,18 @@ class RefHost:
         self.replies = replies
         self.verify_probe = verify_probe
         self.probes = []        # [(time, dst_port, wellformed)]
-        self.answered = False
+        self._answered = set()      # probers (endpoints) already answered: a unit answers each prober once
         self.errors = list(errors)      # [(delay_s, errno)] socket errors surfacing at the prober after the probe
         self.delivered_plan = []
+
+    @property
+    def answered(self):
+        return bool(self._answered)
+
+    @answered.setter
+    def answered(self, v):
+        if not v:
+            self._answered.clear()
 
     def on_probe(self, net, endpoint, data, dst_port, dst_ip, overheard=False):
         ok = codec.probe_is_wellformed(data)
@@ -23,9 +32,9 @@ class RefHost:
             self.probes.append((net.loop.time(), dst_port, ok))
         if self.verify_probe and not ok:
             return
-        if self.answered:
+        if id(endpoint) in self._answered:
             return
-        self.answered = True
+        self._answered.add(id(endpoint))
         for delay, eno in self.errors:
             endpoint.inject_error(ConnectionResetError(eno, "simulated socket error") if eno == 104
                                   else OSError(eno, "simulated socket error"), delay)
